@@ -209,6 +209,55 @@ def probe17 (s : Db Json Json) (j : Json) : R Json := do
       (match e.value with | none => [] | some v => [("obj", v)])
   pure (Json.mkObj [("code", Json.num r.code), ("entries", Json.arr entries.toArray)])
 
+/-! subscriptions: `AccessoryDriver.async_subscribe_client_topic` on topic ↦ clients (one
+    independent subscriber set per topic), events routed by `Db.eventId` -/
+
+abbrev Topics := List ((Nat × Nat) × List Nat)
+
+def subscribe (topics : Topics) (p : Nat × Nat) (client : Nat) (on : Bool) : Topics :=
+  if on then
+    match topics.find? (fun t => t.1 == p) with
+    | some _ => topics.map fun t =>
+        if t.1 == p then (t.1, if t.2.contains client then t.2 else t.2 ++ [client]) else t
+    | none => topics ++ [(p, [client])]
+  else
+    (topics.map fun t => if t.1 == p then (t.1, t.2.filter (· != client)) else t).filter
+      (fun t => !t.2.isEmpty)
+
+def insertNat (x : Nat) : List Nat → List Nat
+  | [] => [x]
+  | y :: ys => if x ≤ y then x :: y :: ys else y :: insertNat x ys
+
+/-- `{"client": n, "sub": [[aid, iid, on], …]}` (one PUT) or `{"notify": obj}` (a value change of
+    that object); answers one entry per notify: the id the event carries and who receives it -/
+def runSubs (s : Db Json Json) : List Json → Topics → List Json → R (List Json)
+  | [], _, acc => pure acc.reverse
+  | st :: rest, topics, acc => do
+    match st.getObjVal? "notify" with
+    | .ok o => do
+      let o ← asNat o
+      let ev := s.eventId o
+      let clients : List Nat := match ev with
+        | some (some aid, some iid) =>
+          match topics.find? (fun (t : (Nat × Nat) × List Nat) => t.1 == (aid, iid)) with
+          | some t => t.2
+          | none => []
+        | _ => []
+      let out := Json.mkObj [
+        ("event", match ev with | none => Json.null | some e => jpair e),
+        ("clients", Json.arr ((clients.foldr insertNat []).map (fun (c : Nat) => Json.num (c : JsonNumber))).toArray)]
+      runSubs s rest topics (out :: acc)
+    | _ => do
+      let client ← getNat st "client"
+      let subs ← getArr st "sub"
+      let topics ← subs.toList.foldlM (fun tp q => do
+        match q with
+        | .arr #[a, i, b] => do
+          let on ← match b with | .bool v => pure v | _ => throw "sub: bool expected"
+          pure (subscribe tp (← asNat a, ← asNat i) client on)
+        | _ => throw "sub: [aid, iid, on] expected") topics
+      runSubs s rest topics acc
+
 def handle17 (j : Json) : R Json := do
   let isBridge ← getBool j "bridge"
   let mainSpecs ← getArr j "main"
@@ -231,10 +280,11 @@ def handle17 (j : Json) : R Json := do
       ("event", match s.eventId o with | none => Json.null | some e => jpair e)] ++ rd)
   let managers := managerJson s 1 s.main :: s.bridged.map (fun ka => managerJson s ka.1 ka.2)
   let probes ← ((j.getObjValD "probes").getArr?.toOption.getD #[]).toList.mapM (probe17 (tagValues s))
+  let subs ← runSubs s ((j.getObjValD "subs").getArr?.toOption.getD #[]).toList [] []
   pure (Json.mkObj [
     ("results", Json.arr results.toArray), ("accessories", rendering),
     ("resolve", Json.arr resolve.toArray), ("managers", Json.arr managers.toArray),
-    ("probes", Json.arr probes.toArray)])
+    ("probes", Json.arr probes.toArray), ("subs", Json.arr subs.toArray)])
 
 /-! ### C11: histories over a snapshot of a real configuration -/
 
